@@ -172,8 +172,16 @@ class Impl(object):
         self.pending = {}
         self.current = None
         self.next_nonce = None
-        self._real_os = BC.os if not isinstance(BC.os, UrandomShim) else BC.os._real
-        BC.os = UrandomShim(self._real_os, self)
+        # the challenge is scripted by replacing `os` in whichever broker module draws it (connection.py today); a tree
+        # that draws it elsewhere simply keeps its own randomness - the nonce is read off the wire anyway
+        self._shimmed = []
+        for mod in (BC, BS):
+            cur = getattr(mod, 'os', None)
+            if cur is None:
+                continue
+            real = cur._real if isinstance(cur, UrandomShim) else cur
+            mod.os = UrandomShim(real, self)
+            self._shimmed.append((mod, real))
         if cfg['mode'] == 'sync':
             from hpfeeds.broker.auth.memory import Authenticator
             creds = {}
@@ -194,7 +202,8 @@ class Impl(object):
         self.hung = None
 
     def close(self):
-        BC.os = self._real_os
+        for mod, real in self._shimmed:
+            mod.os = real
         try:
             for t in asyncio.all_tasks(self.loop):
                 t.cancel()
@@ -1661,8 +1670,10 @@ def nonce_variety(res):
     asyncio.set_event_loop(loop)
     try:
         from hpfeeds.broker.auth.memory import Authenticator
-        real = BC.os._real if isinstance(BC.os, UrandomShim) else BC.os
-        BC.os = real
+        for mod in (BC, BS):
+            cur = getattr(mod, 'os', None)
+            if isinstance(cur, UrandomShim):
+                mod.os = cur._real
         srv = BS.Server(Authenticator({}), name='hpfeeds')
         nonces = []
 
@@ -1708,6 +1719,27 @@ def nonce_variety(res):
             # 16 independent 4-byte random values collide with probability 3e-8: a repeat means the challenge is being
             # reused across connections (cached per server, per peer, per batch), which is what the nonce is there to prevent
             res.violation('C02', 'repeated-nonce', '16 connections got only %d distinct nonces' % len(set(nonces)), {'section': 'nonce-variety'})
+        else:
+            # ... and over a LONG run of accepts on one Server (a pool of pre-drawn challenges that wraps around, a counter
+            # that overflows): 4 200 independent 4-byte values contain an equal pair with probability 0.002 and three
+            # equal pairs with probability below 1e-8, so three or more repeats mean challenges are being handed out again
+            seen, pairs, first = {}, 0, None
+            for i in range(16, 4200):
+                c = BC.Connection(srv)
+                t = _T(40000 + (i % 7))
+                c.connection_made(t)
+                fr = parse_one(t.w[0]) if t.w else None
+                if not fr or fr[0] != P.OP_INFO:
+                    break
+                n_ = fr[1][1 + fr[1][0]:]
+                if n_ in seen:
+                    pairs += 1
+                    first = first or (seen[n_], i)
+                seen[n_] = i
+                c.connection_lost(None)
+            res.note('nonce-variety.long-run-repeats', pairs)
+            if pairs >= 3:
+                res.violation('C02', 'nonce-reused-later', 'over 4 200 accepted connections %d challenges were handed out a second time (first: connections %d and %d got the same nonce)' % (pairs, first[0], first[1]), {'section': 'nonce-variety'})
     finally:
         loop.close()
         asyncio.set_event_loop(None)
